@@ -12,6 +12,7 @@ import Mathlib.LinearAlgebra.Matrix.Block
 import Mathlib.Tactic.Ring
 import Mathlib.Tactic.FieldSimp
 import Mathlib.Tactic.Linarith
+import Mathlib.Data.Complex.Basic
 
 set_option linter.unusedSectionVars false
 set_option linter.unusedSimpArgs false
@@ -291,3 +292,56 @@ end
 example : mseFlat ([1, 2, 3] : List Rat) [1, 1, 1] = 5 / 3 := by decide +kernel
 example : rsquareFlat ([1, 2, 3] : List Rat) [1, 2, 3] = 1 := by decide +kernel
 example : rhoDiag (fun a b => decide (a < b)) ([1/2, -3/4, 1/4] : List Rat) = some (3/4) := by decide +kernel
+
+/-! ### complex spectra: rotation blocks and block-diagonal matrices -/
+
+section Rotation
+open Matrix
+
+
+/-- the 2×2 block a·I + b·J (a scaled rotation when a² + b² = s²) -/
+def rotBlock {K : Type} [Ring K] (a b : K) : Matrix (Fin 2) (Fin 2) K := !![a, -b; b, a]
+
+/-- **Rotation blocks**: μ is an eigenvalue of [[a, −b], [b, a]] (in any commutative ring containing the
+    entries) exactly when (a − μ)² + b² = 0 -/
+theorem C19_rotation_block_det {K : Type} [CommRing K] (a b μ : K) :
+    (rotBlock a b - μ • (1 : Matrix (Fin 2) (Fin 2) K)).det = (a - μ) ^ 2 + b ^ 2 := by
+  simp [rotBlock, Matrix.det_fin_two]
+  ring
+
+/-- … so over ℂ the eigenvalues of a real rotation block are a ± b·i, of modulus² a² + b²: for
+    (a, b) = s·(3/5, 4/5) the spectral radius of the block is exactly |s| -/
+theorem C19_rotation_block_modulus (a b : ℝ) (μ : ℂ)
+    (h : ((a : ℂ) - μ) ^ 2 + (b : ℂ) ^ 2 = 0) : Complex.normSq μ = a ^ 2 + b ^ 2 := by
+  have hre := congrArg Complex.re h
+  have him := congrArg Complex.im h
+  simp [pow_two, Complex.mul_re, Complex.mul_im] at hre him
+  -- im: 2 (a - μ.re) (-μ.im) = 0 ; re: (a-μ.re)^2 - μ.im^2 + b^2 = 0
+  rw [Complex.normSq_apply]
+  by_cases hb : b = 0
+  · subst hb
+    have h1 : (a - μ.re) ^ 2 + μ.im ^ 2 = 0 := by nlinarith [sq_nonneg (a - μ.re), sq_nonneg μ.im]
+    have h2 : a - μ.re = 0 := by nlinarith [sq_nonneg (a - μ.re), sq_nonneg μ.im]
+    have h3 : μ.im = 0 := by nlinarith [sq_nonneg (a - μ.re), sq_nonneg μ.im]
+    have : μ.re = a := by linarith
+    rw [this, h3]; ring
+  · -- b ≠ 0 forces μ.im ≠ 0, hence μ.re = a and μ.im² = b²
+    have him' : (a - μ.re) * μ.im = 0 := by nlinarith
+    rcases mul_eq_zero.mp him' with h1 | h1
+    · have : μ.re = a := by linarith
+      have h2 : μ.im ^ 2 = b ^ 2 := by rw [this] at hre; nlinarith
+      rw [this]; nlinarith
+    · exfalso
+      rw [h1] at hre
+      have : (a - μ.re) ^ 2 + b ^ 2 = 0 := by nlinarith
+      have hb2 : b ^ 2 = 0 := by nlinarith [sq_nonneg (a - μ.re), sq_nonneg b]
+      exact hb ((pow_eq_zero_iff (two_ne_zero)).mp hb2)
+
+/-- **Block-diagonal matrices**: the characteristic polynomial is the product of the blocks' — the
+    spectrum is the union of the blocks' spectra -/
+theorem C19_block_diag_charpoly {K : Type} [CommRing K] {m n : Type} [Fintype m] [Fintype n] [DecidableEq m] [DecidableEq n]
+    (A : Matrix m m K) (D : Matrix n n K) :
+    (Matrix.fromBlocks A 0 0 D).charpoly = A.charpoly * D.charpoly := by
+  simp
+
+end Rotation
